@@ -5,6 +5,7 @@ import Slock.Model.TextMd5
 import Slock.Model.TextValue
 /-! Driver commands for M-TEXT (byte strings are hex, `-` = empty):
   textparse <chunk>,<chunk>,…        → <cmd>|<cmd>|…;<done|pending|err|panic>   (cmd = <arg>,<arg>,… ; `()` = no args; `none` = no command)
+  textrparse <chunk>,<chunk>,…       → ParseResponse loop: <argsType>:<arg>,<arg>,…|…;<done|pending|err|panic>
   textbuild <arg>,<arg>,…  (or `()`)  → hex of BuildRequest
   textresp <0|1> <msg> <res>,… | ()   → hex of BuildResponse
   lockkey <hex> / lockid <hex>        → 16-byte hex (ConvertString2LockKey / ConvertArgId2LockId)
@@ -35,6 +36,11 @@ def handleTextParse : List String → Option String
     let chunks ← parseList cs
     let (cmds, st) := (parseAll chunks).outcome
     pure (showCmds cmds ++ ";" ++ showStatus st)
+  | ["textrparse", cs] => do
+    let chunks ← parseList cs
+    let (rs, st) := (parseAllR chunks).outcomeR
+    let shown := if rs.isEmpty then "none" else "|".intercalate (rs.map (fun r => s!"{r.1}:{showCmd r.2}"))
+    pure (shown ++ ";" ++ showStatus st)
   | ["textbuild", as] => do
     let args ← parseList as
     pure (showHex (buildRequest args))
